@@ -1,6 +1,6 @@
 from __future__ import division
 
-from . import der, ecdsa, ellipticcurve, eddsa
+from . import der, ecdsa, ellipticcurve, eddsa, numbertheory
 from .util import orderlen, number_to_string, string_to_number
 from ._compat import normalise_bytes, bit_length
 
@@ -226,6 +226,11 @@ class Curve:
                 "Unexpected data after ECParameters.fieldID.Prime-p element"
             )
 
+        if prime < 5 or not numbertheory.is_prime(prime):
+            raise der.UnexpectedDER(
+                "ECParameters.fieldID.Prime-p is not a prime bigger than 3"
+            )
+
         # decode the ECParameters.curve sequence
         curve_a_bytes, rest = der.remove_octet_string(curve)
         curve_b_bytes, rest = der.remove_octet_string(rest)
@@ -245,6 +250,10 @@ class Curve:
             order=order,
             generator=True,
         )
+        if not base.y() or not curve_fp.contains_point(base.x(), base.y()):
+            raise der.UnexpectedDER(
+                "ECParameters.base is not a point of the curve"
+            )
         tmp_curve = Curve("unknown", curve_fp, base, None)
 
         # if the curve matches one of the well-known ones, use the well-known
